@@ -60,9 +60,23 @@ def families(env):
     fam('bvadd_flat', BV8, lambda x, a, b, p, q: mgr.BVAdd(
         mgr.BVAdd(x, a), mgr.BVAdd(b, x)))
     for op in ('BVAdd', 'BVAnd', 'BVOr', 'BVXor', 'BVMul', 'BVSub',
-               'BVLShl', 'BVLShr', 'BVUDiv'):
+               'BVLShl', 'BVLShr', 'BVUDiv', 'BVSDiv', 'BVAShr'):
         fam(op.lower(), BV8, lambda x, a, b, p, q, op=op: getattr(mgr, op)(
             getattr(mgr, op)(x, a), getattr(mgr, op)(b, x)))
+    fam('div_int', T.INT, lambda x, a, b, p, q: mgr.Div(
+        mgr.Div(x, a), mgr.Div(b, x)))
+    fam('div_real', T.REAL, lambda x, a, b, p, q: mgr.Div(
+        mgr.Div(x, a), mgr.Div(b, x)))
+    fam('bvrot', BV8, lambda x, a, b, p, q: mgr.BVRol(mgr.BVXor(
+        mgr.BVRor(x, 1), mgr.BVZExt(mgr.BVExtract(x, 1, 7), 1)), 2))
+    fam('str_concat', T.STRING, lambda x, a, b, p, q: mgr.StrConcat(
+        mgr.StrConcat(x, a), mgr.StrConcat(b, x)))
+    FII = T.FunctionType(T.INT, [T.INT, T.INT])
+    fam('function', T.INT, lambda x, a, b, p, q: mgr.Function(
+        mgr.Symbol('c20_f', FII), [mgr.Function(mgr.Symbol('c20_f', FII),
+                                                [x, a]),
+                                   mgr.Function(mgr.Symbol('c20_f', FII),
+                                                [b, x])]))
     fam('bvconcat', BV8, lambda x, a, b, p, q: mgr.BVExtract(
         mgr.BVConcat(mgr.BVAnd(x, a), mgr.BVOr(x, b)), 4, 11))
     fam('ite_bv', BV8, lambda x, a, b, p, q: mgr.Ite(
@@ -152,9 +166,19 @@ def chain_step(mgr, name, sort, x, a, p):
     if name == 'bvadd_flat':
         return mgr.BVAdd(x, a)
     for op in ('BVAdd', 'BVAnd', 'BVOr', 'BVXor', 'BVMul', 'BVSub', 'BVLShl',
-               'BVLShr', 'BVUDiv'):
+               'BVLShr', 'BVUDiv', 'BVSDiv', 'BVSRem', 'BVURem', 'BVAShr'):
         if name == op.lower():
             return getattr(mgr, op)(x, a)
+    if name.startswith('div'):
+        return mgr.Div(x, a)
+    if name == 'bvrot':
+        return mgr.BVRol(mgr.BVXor(x, a), 1)
+    if name == 'str_concat':
+        return mgr.StrConcat(x, a)
+    if name == 'function':
+        import pysmt.typing as T
+        return mgr.Function(mgr.Symbol('c20_f', T.FunctionType(
+            T.INT, [T.INT, T.INT])), [x, a])
     raise ValueError(name)
 
 
@@ -374,6 +398,16 @@ def procedures(env, cc):
             sc = SmtLibParser(env).get_script(StringIO(buf.getvalue()))
             out = StringIO()
             sc.serialize(out, daggify=True)
+            # and the same script with its assertion named
+            lines = buf.getvalue().split('\n')
+            for i, ln in enumerate(lines):
+                if ln.startswith('(assert ') and ln.endswith(')'):
+                    lines[i] = '(assert (! %s :named c20_n))' % ln[8:-1]
+            sc = SmtLibParser(env).get_script(StringIO('\n'.join(lines)))
+            if not sc.annotations.all_annotated_formulae('named'):
+                raise AssertionError('the annotation was not read')
+            out = StringIO()
+            sc.serialize(out, daggify=True)
         return None, None
     P['reserialize_parsed_dag'] = reserialize
     # rewriters that are plain functions (no walker): counted by function
@@ -518,7 +552,7 @@ def run(rep):
             # more times (let name, operator, references): larger constant
             cc_ = 20 if proc in ('reparse_dag', 'to_smtlib_dag') else C
             if proc == 'reserialize_parsed_dag':
-                cc_ = 45
+                cc_ = 75
             if proc in BOOL_ONLY:
                 cc_ = 60     # function entries, not callbacks
             if k2 > cc_ * s2 or (k1 > 0 and k2 > 2.5 * k1):
